@@ -91,6 +91,32 @@ theorem encoded_le_maxBlockSize (base : Int) (forks : List (Int × Int)) (blFork
 
 example : limitAt 10000 [(0, 10000)] 7 ≤ 20000 := by decide
 
+/-- The configuration hypothesis `limit ≤ 20000` of `encoded_le_maxBlockSize` **is needed**: with
+`maxTxNumber = 100000` (= `types.MaxTxsPerBlock`) a pool of 100000 transactions of `Size()` 199 passes
+both tests of `AddTxsToBlock` (count = limit, accumulated size = 19 900 000 = the bound) and the
+encoded block has 100000·(1+2+199) = 20 200 000 bytes > `MaxBlockSize` — a block every peer's
+`CheckBlock` refuses with `ErrBlockSize`.  Replayed on the implementation by `h_c30`
+(`limit_over_20000_demo`); declared as a configuration assumption (stock configurations: ≤ 10000). -/
+theorem encoded_bound_needs_limit :
+    ¬ (∀ (base : Int) (forks : List (Int × Int)) (blFork height : Int) (count0 size0 : Nat)
+        (pool : List Entry), (count0 : Int) ≤ limitAt base forks height → size0 ≤ sizeBound →
+        size0 + encodedGrowth (addTxsToBlock base forks blFork height count0 size0 pool) ≤ maxBlockSize) := by
+  intro h
+  have := h 100000 [] 0 0 0 0 (List.replicate 100000 (.single ⟨0, 199, false⟩)) (by decide) (by decide)
+  have e : addTxsToBlock 100000 [] 0 0 0 0 (List.replicate 100000 (.single ⟨0, 199, false⟩))
+      = List.replicate 100000 ⟨0, 199, false⟩ := by
+    unfold addTxsToBlock
+    have h1 : isFork 0 0 = true := by decide
+    have h2 : limitAt 100000 [] 0 = 100000 := by decide
+    rw [h1, h2]
+    exact addTxs_replicate 100000 sizeBound ⟨0, 199, false⟩ rfl 100000 (0 : Nat) 0 (by decide) (by decide)
+  rw [e, encodedGrowth_replicate] at this
+  have hf : framed 199 = 202 := by
+    unfold framed varintLen varintLen; decide
+  simp only [hf] at this
+  revert this
+  decide
+
 /-- **groups are atomic, order is kept**: the added transactions are exactly the expansion of a
 sub-list of the pool *entries* (a group entry is taken whole or not at all), hence also a sub-list
 of the flattened pool in the given order. -/
@@ -136,6 +162,16 @@ theorem expire_removes_whole_groups (exp : ETx → Bool) (segs : List (List ETx)
     (h : ∀ s ∈ segs, WellFormedSeg s) :
     checkTxExpire exp segs.flatten = some ((segs.filter (fun s => !s.any exp)).flatten) :=
   checkTxExpire_segs exp segs h
+
+/-- `WellFormedSeg` **is needed**: a truncated trailing group (`i + GroupCount > len(txs)`) is
+`continue`d over — kept unchecked although every member is expired.  No caller in /repo passes such
+a list (`CheckTxExpire` is only meant for the miner's own block, whose transactions come from
+`AddTxsToBlock`, i.e. whole groups by `groups_atomic`); replayed on the implementation by `h_c30`
+(`truncated_trailing_group`, differential only).  Declared, not a finding. -/
+theorem expire_truncated_group_kept :
+    checkTxExpire (ETx.expired false 10 1600000000) [⟨1, 0, 5, none⟩, ⟨2, 3, 5, none⟩, ⟨3, 3, 5, none⟩]
+      = some [⟨2, 3, 5, none⟩, ⟨3, 3, 5, none⟩] := by
+  simp [checkTxExpire, markExpired, ETx.expired, ETx.isExpire, isExpireField, expireBound]
 
 /-- field-level expiry, behind the same `height > 0 && blocktime > 0` gate -/
 def trulyExpired (txHeightOn : Bool) (height blocktime : Int) (t : ETx) : Bool :=
